@@ -80,7 +80,7 @@ class Deriver:
         return best
 
     # ---- derivation ----------------------------------------------------------------------------
-    def derive(self, rule, chooser, used, budget):
+    def derive(self, rule, chooser, used, budget, depth=0):
         """-> (rule, [children]); children are derivations or ('LEAF', label).  chooser(options) -> index or None
         (None = no choice left: complete minimally)"""
         state = self.dfas[rule][0]
@@ -99,8 +99,12 @@ class Deriver:
                 break
             used.add((rule, self.dfas[rule].index(state), lab))
             if lab in self.nts:
-                # the free choices walk the focus rule's own automaton; what it calls is completed minimally
-                children.append(self.derive(lab, _NO_CHOICE, used, [0]))
+                # the free choices walk the focus rule's automaton and the rules it calls directly; everything
+                # deeper is completed minimally
+                if depth < 1:
+                    children.append(self.derive(lab, chooser, used, budget, depth + 1))
+                else:
+                    children.append(self.derive(lab, _NO_CHOICE, used, [0], depth + 1))
             else:
                 children.append(('LEAF', lab))
             state = state.arcs[lab]
@@ -228,7 +232,8 @@ def render(d):
             tight = (fdepth > 0 and (rule in ('fstring', 'fstring_format_spec', 'fstring_content') or lab.startswith('FSTRING')
                                      or (prev is not None and (prev[1] in ('fstring', 'fstring_format_spec', 'fstring_content')
                                                                or prev[0].startswith('FSTRING')))
-                                     or s == '}' or (prev is not None and prev[2] == '{')))
+                                     or s == '}' or (rule == 'fstring_expr' and s == '{')
+                                     or (prev is not None and prev[2] == '{')))
             if not tight:
                 text += ' '
         text += s
